@@ -143,3 +143,36 @@ package db
 
 // executable forms of spec functions (used only by counterexample replays)
 //@ go func oracle_prefixLimit(p, l string) bool { for i := 0; i < len(p); i++ { if len(l) == i+1 && p[i] < 255 && l[i] == p[i]+1 && l[:i] == p[:i] { ok := true; for m := i + 1; m < len(p); m++ { if p[m] != 255 { ok = false } }; if ok { return true } } }; return false }
+
+// ---- C09: adding a version writes one versioned record per input record ---------------------------
+//@ func (*SimpleMVCC).GetSaveKV [C09]
+//@   opt overflow=assumed
+//@   frame allocates
+//@   ensures result1 == nil && result0 != nil && result0.Value == value
+//@   ensures version >= 0 ==> bytes(result0.Key) == dkey(bytes(key), version)
+//@ func (*SimpleMVCC).GetDelKV [C09]
+//@   opt overflow=assumed
+//@   frame allocates
+//@   ensures result1 == nil && result0 != nil && isnil(result0.Value)
+//@   ensures version >= 0 ==> bytes(result0.Key) == dkey(bytes(key), version)
+
+//@ pure func (*SimpleMVCC).GetVersionHash
+//@ trusted func (*SimpleMVCC).SetVersionKV
+//@   frame allocates
+//@ pure func getVersionKeyListKey
+//@ pure func github.com/33cn/chain33/types.Encode
+
+// every input record - duplicates of a key included, in order, so that the last write wins when the
+// list is applied - produces its versioned record; plus the two version records and the key list
+//@ func (*SimpleMVCC).AddMVCC [C09]
+//@   opt safety=assumed overflow=assumed
+//@   ensures result1 == nil ==> len(result0) == len(ret0(SetVersionKV)) + len(kvs) + 1
+//@   assert@call GetSaveKV: arg1 == kvs[i].Key && arg2 == kvs[i].Value && arg3 == version
+//@   loop 0 invariant 0 <= i && i <= len(kvs) && len(kvlist) == len(versionlist) + i
+//@   loop 0 invariant len(delkeys.KV) == i
+
+// ---- C08: committing closes the transaction ---------------------------------------------------------
+//@ func (*LocalDB).Commit [C08]
+//@   opt safety=assumed panics=allowed
+//@   ensures result == nil && !l.intx && l.txcache == nil
+//@   ensures l.maindb == old(l.maindb)
